@@ -44,7 +44,8 @@ RULE = (
     "Random('C10/seed/sub/j'): password pair categories (empty, ascii, 31/32/33 bytes, long, Latin-1, non-Latin-1 and "
     "Hebrew for R5/R6, owner==user, no owner password), /P with random permission bits and the reserved bits as "
     "Table 22 requires, /ID present (16 or odd lengths) / two empty strings / absent, EncryptMetadata true/false "
-    "with a catalog /Metadata stream, Encrypt dictionary indirect or direct, table / xref stream / object streams, "
+    "with a catalog /Metadata stream, Encrypt dictionary indirect or direct, table / xref stream / object streams, cross-reference streams "
+    "with /W third width 0 (then no generation > 0 and one object per object stream), 1 or 2 and second width minimal or 4, "
     "object numbers up to 8388607 and generations up to 65534, strings of all lengths 0..40 in every document plus "
     "longer ones, streams with lengths around the AES block boundaries, raw and Flate. Wrong passwords: prefix, "
     "extension, case swap, doubled, empty, random, 32nd/127th-byte variants, non-Latin-1, not PDFDocEncodable. "
@@ -102,7 +103,9 @@ def minimums(tier: str) -> Dict[str, int]:
          "seen:id_mode": 3, "seen:user_pw_category": 11, "tagged:%s" % TAG_STREAMDICT: 60,
          "tagged:%s" % TAG_IDDEFAULT: 20, "tagged:%s" % TAG_SASLMAP: 10, "tagged:%s" % TAG_UNPREP: 6,
          "encrypt_length:V4:absent": 80, "encrypt_length:V4:written": 80, "encrypt_length:V5:absent": 150,
-         "encrypt_length:V5:written": 150, "encrypt_length:V2:absent": 8}
+         "encrypt_length:V5:written": 150, "encrypt_length:V2:absent": 8,
+         "xref_w3:0:per_object_key_docs": 100, "xref_w3:1:per_object_key_docs": 60, "xref_w3:2:per_object_key_docs": 150,
+         "xref_w3:1:per_object_key_docs_with_gen": 40, "xref_w3:2:per_object_key_docs_with_gen": 100}
     if tier == "quick":
         return q
     f = (256 * 100) // (48 * 36)
@@ -446,6 +449,10 @@ def gen_case(seed: int, sub: int, j: int, tier: str = "quick") -> Dict[str, Any]
         id_mode, id0, id1 = "absent", b"", b""
     encrypt_metadata = True if V < 4 else rng.random() < 0.5
     xref_kind = rng.choice(["table", "stream", "objstm", "objstm"])
+    # /W of the cross-reference stream: third width 0 (field absent = generation 0 / index 0), 1 or 2
+    w3 = 2 if xref_kind == "table" else rng.choice([0, 0, 1, 2] if xref_kind == "stream" else [0, 1, 2, 2, 2, 2])
+    w2: Optional[int] = None if rng.random() < 0.5 else 4
+    gens_allowed = [] if w3 == 0 else ([g for g in GENS if g < 256] if w3 == 1 else GENS)
     large = rng.random() < 0.35
     caching = rng.random() < 0.8
 
@@ -500,8 +507,8 @@ def gen_case(seed: int, sub: int, j: int, tier: str = "quick") -> Dict[str, Any]
             if n in doc.objs or n <= seq[0] + 60:
                 n = None
         ref = doc.add(o, n if n is not None else free_seq())
-        if allow_gen and rng.random() < 0.2:
-            doc.gens[ref.n] = rng.choice(GENS)
+        if allow_gen and gens_allowed and rng.random() < 0.2:
+            doc.gens[ref.n] = rng.choice(gens_allowed)
             ref = Ref(ref.n, doc.gens[ref.n])
         return ref
 
@@ -575,7 +582,9 @@ def gen_case(seed: int, sub: int, j: int, tier: str = "quick") -> Dict[str, Any]
         cand = [n for n, o in doc.objs.items() if not isinstance(o, Stream) and doc.gens.get(n, 0) == 0]
         rng.shuffle(cand)
         take = cand[: max(1, int(len(cand) * rng.choice([0.4, 0.7, 1.0])))]
-        if large and len(take) > 3 and rng.random() < 0.5:
+        if w3 == 0:
+            groups = [[n] for n in take[: rng.randint(1, 3)]]     # index inside the object stream must be 0
+        elif large and len(take) > 3 and rng.random() < 0.5:
             cut = rng.randint(1, len(take) - 1)
             groups = [take[:cut], take[cut:]]
         else:
@@ -591,8 +600,8 @@ def gen_case(seed: int, sub: int, j: int, tier: str = "quick") -> Dict[str, Any]
                          random.Random("C10enc/%d/%d/%d" % (seed, sub, j)), id_mode=id_mode, id0=id0, id1=id1,
                          encrypt_metadata=encrypt_metadata, **opts)
     xk = "table" if xref_kind == "table" else "stream"
-    if large or len(groups) > 1 or rng.random() < 0.3:
-        pdf, binfo = C.build_sparse(doc, xref=xk, objstm=groups, encryptor=enc)
+    if large or len(groups) > 1 or (xk == "stream" and (w3 != 2 or w2 is None)) or rng.random() < 0.3:
+        pdf, binfo = C.build_sparse(doc, xref=xk, objstm=groups, encryptor=enc, w=(1, w2, w3))
         members = binfo["members"]
         builder = "sparse"
     else:
@@ -619,7 +628,9 @@ def gen_case(seed: int, sub: int, j: int, tier: str = "quick") -> Dict[str, Any]
         "enc_objnum": enc.enc_ref.n if enc.enc_ref is not None else None, "enc_O": enc.O, "enc_U": enc.U,
         "xref_objnum": xref_objnum, "caching": caching, "encrypt_metadata": encrypt_metadata, "meta_n": meta_n,
         "features": {"ucat": ucat, "ocat": ocat, "id_mode": id_mode, "xref_kind": xref_kind, "builder": builder,
-                     "large": large, "encrypt_direct": opts["encrypt_direct"], "length_written": opts["write_length"] and V >= 2, "lines": lines_total,
+                     "large": large, "encrypt_direct": opts["encrypt_direct"], "length_written": opts["write_length"] and V >= 2,
+                     "w3": w3 if xk == "stream" else None, "per_object_key": V < 5 and cfm != "Identity",
+                     "W": (binfo.get("W") if builder == "sparse" and xk == "stream" else ([1, 4, 2] if xk == "stream" else None)), "lines": lines_total,
                      "really_encrypted": really_encrypted, "gens": sorted(set(doc.gens.values())), "n_gen_objects": len(doc.gens),
                      "objnums_large": sorted(n for n in doc.objs if n >= 255)},
     }
@@ -958,6 +969,13 @@ def run_shard(spec: Dict[str, Any], rec) -> None:
                 rec.see("large_objnums", n)
         if feat["encrypt_direct"]:
             rec.count("encrypt_dict_direct")
+        if feat["w3"] is not None:
+            rec.count("xref_w3:%d" % feat["w3"])
+            rec.see("xref_W", "%d %d %d" % tuple(feat["W"]))
+            if feat["per_object_key"]:
+                rec.count("xref_w3:%d:per_object_key_docs" % feat["w3"])
+                if feat["n_gen_objects"]:
+                    rec.count("xref_w3:%d:per_object_key_docs_with_gen" % feat["w3"])
         rec.count("encrypt_length:%s:%s" % (case["cfg"][:2], "written" if feat["length_written"] else "absent"))
         if not case["caching"]:
             rec.count("caching_off_docs")
